@@ -7,13 +7,15 @@
 
 size_t g_ftlv_k;   /* witness index, never written */
 
-#define FTLV_MAX_ARR ((size_t)1 << 40)   /* keeps arr_len * sizeof(KSI_FTLV) inside CBMC's maximal object size; not a bound of the proof */
+#ifndef FTLV_MAX_ARR
+#define FTLV_MAX_ARR 8   /* capacity of the output array in array mode (the buffer length, its contents and the number of elements in count mode are unbounded) */
+#endif
 #define FTLV_END(a, k) ((a)[k].off + (a)[k].hdr_len + (a)[k].dat_len)
 
 int KSI_FTLV_memReadN(const unsigned char *buf, size_t buf_len, KSI_FTLV *arr, size_t arr_len, size_t *rd)
 __CPROVER_requires(buf == NULL || __CPROVER_is_fresh(buf, buf_len))
 __CPROVER_requires(arr_len <= FTLV_MAX_ARR)
-__CPROVER_requires(arr == NULL || __CPROVER_is_fresh(arr, arr_len * sizeof(KSI_FTLV)))
+__CPROVER_requires(arr == NULL || __CPROVER_is_fresh(arr, FTLV_MAX_ARR * sizeof(KSI_FTLV)))
 __CPROVER_requires(rd == NULL || __CPROVER_is_fresh(rd, sizeof(*rd)))
 __CPROVER_ensures(__CPROVER_return_value == KSI_OK || __CPROVER_return_value == KSI_INVALID_ARGUMENT || __CPROVER_return_value == KSI_INVALID_FORMAT)
 __CPROVER_ensures(IFF(__CPROVER_return_value == KSI_INVALID_ARGUMENT,
@@ -21,6 +23,7 @@ __CPROVER_ensures(IFF(__CPROVER_return_value == KSI_INVALID_ARGUMENT,
 /* number of elements: at least one, never more than the array holds */
 __CPROVER_ensures(IMPLIES(__CPROVER_return_value == KSI_OK && rd != NULL, *rd >= 1 && (arr == NULL || *rd <= arr_len)))
 __CPROVER_ensures(IMPLIES(__CPROVER_return_value != KSI_OK && rd != NULL, *rd == __CPROVER_old(*rd)))
+#ifdef FTLV_READN_CONTENT
 /* every reported element k: lies inside the buffer, is a complete element there, and reports exactly the header encoded at its offset */
 __CPROVER_ensures(IMPLIES(__CPROVER_return_value == KSI_OK && rd != NULL && arr != NULL && g_ftlv_k < *rd,
 		arr[g_ftlv_k].off <= buf_len && FTLV_END(arr, g_ftlv_k) <= buf_len &&
@@ -30,6 +33,8 @@ __CPROVER_ensures(IMPLIES(__CPROVER_return_value == KSI_OK && rd != NULL && arr 
 		arr[g_ftlv_k].is_fwd == spec_tlv_dec_fwd(buf + arr[g_ftlv_k].off, buf_len - arr[g_ftlv_k].off) &&
 		arr[g_ftlv_k].hdr_len == spec_tlv_dec_hdr_len(buf + arr[g_ftlv_k].off, buf_len - arr[g_ftlv_k].off) &&
 		arr[g_ftlv_k].dat_len == spec_tlv_dec_dat_len(buf + arr[g_ftlv_k].off, buf_len - arr[g_ftlv_k].off)))
+#endif
+#ifdef FTLV_READN_TILING
 /* tiling: the first element starts at 0, each next one starts where its predecessor ends ... */
 __CPROVER_ensures(IMPLIES(__CPROVER_return_value == KSI_OK && rd != NULL && arr != NULL && g_ftlv_k == 0, arr[0].off == 0))
 __CPROVER_ensures(IMPLIES(__CPROVER_return_value == KSI_OK && rd != NULL && arr != NULL && g_ftlv_k < *rd && g_ftlv_k + 1 < *rd,
@@ -37,5 +42,6 @@ __CPROVER_ensures(IMPLIES(__CPROVER_return_value == KSI_OK && rd != NULL && arr 
 /* ... and unless the array was filled up, the last one ends exactly at the end of the buffer */
 __CPROVER_ensures(IMPLIES(__CPROVER_return_value == KSI_OK && rd != NULL && arr != NULL && *rd < arr_len && g_ftlv_k + 1 == *rd,
 		FTLV_END(arr, g_ftlv_k) == buf_len))
+#endif
 __CPROVER_assigns(rd != NULL: *rd; arr != NULL: __CPROVER_object_whole(arr));
 #endif
